@@ -67,7 +67,7 @@ def generate(gen, tier):
                 f = relabel_leaves(gen, p)
         sp, sf = [A('structure'), cfg, p], [A('structure'), cfg, f]
         lines = [op('flatten_up_to', sp, f), op('is_prefix', sp, sf, A('0')), op('is_prefix', sp, sf, A('1')),
-                 op('is_prefix', sf, sp, A('0'))]
+                 op('is_prefix', sf, sp, A('0')), op('is_enc', sp), op('is_enc', sf)]
         cases.append({'lines': lines, 'o': {'cfg': render(cfg), 'p': render(p), 'f': render(f), 'class': cls}})
     return cases
 
